@@ -143,6 +143,7 @@ def map_kernels(P, R):
                if g.name.startswith('_geometry_map') and P.is_jit(g) and len(g.params) >= 5]
     if not kernels:
         raise AnalysisError(f'function {BL}:_geometry_map_nested* not found (anchor vanished)')
+    map_kernel_coverage(P, R, kernels)
     for n, f in kernels:
         for x in ast.walk(f.node):
             for ch in ast.iter_child_nodes(x):
@@ -164,6 +165,68 @@ def map_kernels(P, R):
                 depth = t.comparators[0].value
         if n is not None:
             R.check(depth == n, 'C14.b', f, asserts[0] if asserts else None, f'{f.name} handles exactly {n} offset level(s)', f'{f.name} asserts depth {depth}', nontrivial=False)
+
+
+def map_kernel_coverage(P, R, kernels):
+    """C14.b (bounded): every row is visited: a map kernel run by E-VEC with a stand-in measure function stores a value for EVERY non-missing row and for no
+    missing row, for row counts 0..3 and around every integer constant used by the kernel and its helpers (block sizes: K-1, K, K+1, 2K-1, 2K+1, 3K-5)."""
+    import veceval
+    nan = float('nan')
+    for n_lv, f in kernels:
+        consts = set()
+        seen = set()
+        stack = [f]
+        while stack:
+            g = stack.pop()
+            if g.key in seen:
+                continue
+            seen.add(g.key)
+            for x in ast.walk(g.node):
+                if isinstance(x, ast.Constant) and isinstance(x.value, int) and not isinstance(x.value, bool) and 8 <= x.value <= 4096:
+                    consts.add(x.value)
+                if isinstance(x, ast.Name):
+                    for a in g.mod.tree.body:
+                        if isinstance(a, ast.Assign) and isinstance(a.targets[0], ast.Name) and a.targets[0].id == x.id and isinstance(a.value, ast.Constant) \
+                                and isinstance(a.value.value, int) and 8 <= a.value.value <= 4096:
+                            consts.add(a.value.value)
+            stack.extend(h for _, h in P.callees(g))
+        sizes = {0, 1, 2, 3, 5}
+        for k in consts:
+            sizes |= {k - 1, k, k + 1, 2 * k - 1, 2 * k + 1, 3 * k - 5}
+        sizes = sorted(x for x in sizes if 0 <= x <= 13000)
+        levels = n_lv if n_lv is not None else 2
+        bad, undec = [], None
+        for n in sizes:
+            for miss_every in (0, 3):
+                missing = [(miss_every and i % miss_every == 1) for i in range(n)]
+                offs = tuple(list(range(0, n + 1)) for _ in range(levels))
+                result = [nan] * n
+                env = dict(zip(f.params, [lambda v, o: 1.0, result, [0.0] * 4, offs, missing]))
+                if len(f.params) != 5:
+                    undec = 'kernel signature'
+                    break
+                ev = veceval.VecEval(P, f, env, n)
+                try:
+                    ev.block(f.node.body)
+                except veceval.Returned:
+                    pass
+                except veceval.Unsupported as e_:
+                    undec = str(e_)
+                    break
+                except (IndexError, TypeError, ValueError) as e_:
+                    bad.append({'rows': n, 'error': type(e_).__name__})
+                    continue
+                wrong = [i for i in range(n) if (result[i] == 1.0) == bool(missing[i])]
+                if wrong:
+                    bad.append({'rows': n, 'missing_every': miss_every, 'rows_without_value_or_wrongly_stored': wrong[:4] + (['...'] if len(wrong) > 4 else []), 'count': len(wrong)})
+            if undec:
+                break
+        if undec:
+            R.abstain('C14.b', f, None, f'{f.name}: row coverage not evaluated ({undec})', construct=f'{f.name}: every row visited')
+            continue
+        R.exhaustive_sites[f'C14.b {f.name} row coverage for row counts {sizes[:6]}...{sizes[-3:]}'] = True
+        R.check(not bad, 'C14.b', f, None, f'{f.name} stores a value for every non-missing row and for no missing row (row counts {sizes[0]}..{sizes[-1]}, {len(sizes)} sizes)',
+                f'{f.name} leaves rows without a value (they keep the NaN prefill) or stores missing rows: {bad[:3]}', construct=f'{f.name}: every row visited', counterexamples=bad[:4])
 
 
 def _prefill_kind(P, caller, d):
@@ -258,6 +321,8 @@ def run(P, R, tier):
             if m2 is not None and m2[0] == 'func' and m2[1] not in meas:
                 meas.append(m2[1])
     common.decorated_methods(P, R, 'C14.c', meas)
+    common.forward(P, R, 'C13', ['C13.i'], 'C14.b', 'per-element reductions over offset segments (reduceat) repair the rows of elements without vertices', floor=0)
+    common.forward(P, R, 'C16', ['C16.g'], 'C14.c', 'the scalar an array hands out (indexing or iterating) measures like the array row: it is built from the element\'s own values and dtype', floor=1)
     # no measure without the kernel: every return of a length/area that has a kernel passes through it
     for f_ in meas:
         if f_.name in ('length', 'area') and any((lambda r: r and r[0] == 'func' and (r[1].name.startswith('_geometry_map_nested') or r[1].name.startswith('compute_')))(P.resolve_call(f_, c_))
